@@ -11,7 +11,7 @@ import numpy as np
 from hypothesis import strategies as st
 from hypothesis.stateful import RuleBasedStateMachine, rule, initialize, precondition
 
-from vf.harness import Clause, Info, require, Violation
+from vf.harness import Clause, Info, require, Violation, Skip
 
 from enspara import ra
 
@@ -516,6 +516,16 @@ def make_machine(hooks):
         def scalar_only(self):
             return self.core.vec
 
+        def newlen(self, data, cur, always=False):
+            """whole-row replacement may change the row's length (the list-of-rows model simply rebinds the row).
+            `a[i] = v` on an array whose rows are all equally long is a numpy assignment into a 2-D block (a shorter
+            value is broadcast, a longer one rejected), so a single row is only resized while the array is ragged;
+            `a[rows] = RaggedArray` rebinds rows whatever the layout."""
+            ragged = len(set(len(r) for r in self.core.m)) > 1
+            if (ragged or always) and data.draw(st.integers(0, 2)) == 0:
+                return data.draw(st.integers(1, 6))
+            return cur
+
         def alive(self):
             return not self.dead and self.core.m is not None
 
@@ -559,7 +569,7 @@ def make_machine(hooks):
         def set_row(self, data):
             m = self.core.m
             i = data.draw(st.integers(-len(m), len(m) - 1))
-            self.do({"op": "set_row", "i": i, "v": self.val(data, len(m[i])),
+            self.do({"op": "set_row", "i": i, "v": self.val(data, self.newlen(data, len(m[i]))),
                      "as": data.draw(st.sampled_from(["array", "list"]))})
 
         @precondition(lambda self: self.alive())
@@ -570,7 +580,7 @@ def make_machine(hooks):
             rows = self.core.rows_of(sel)
             if not rows:
                 return
-            self.do({"op": "set_rows", "rows": sel, "v": [self.val(data, len(self.core.m[r])) for r in rows]})
+            self.do({"op": "set_rows", "rows": sel, "v": [self.val(data, self.newlen(data, len(self.core.m[r]), always=True)) for r in rows]})
 
         @precondition(lambda self: self.alive())
         @rule(data=st.data())
@@ -845,9 +855,107 @@ def run_special(case):
     return Info(has_nan and len(rows) >= 2, ["special_op=" + name, "special_other=" + case["other"], "has_nan=%s" % has_nan])
 
 
+# --------------------------------------------------------------------------
+# operators on narrow dtypes: the element-wise result (values AND result type) is what numpy gives per row - a python
+# scalar adopts the array's dtype, a numpy scalar / other array takes part in promotion, out-of-range python ints raise.
+
+NARROW = ["float32", "float16", "int8", "uint8", "int16", "uint16", "int32", "int64", "float64"]
+NOPS = ["eq", "ne", "lt", "le", "gt", "ge", "add", "radd", "sub", "rsub", "mul", "rmul", "truediv", "rtruediv",
+        "floordiv", "rfloordiv", "mod", "rmod", "pow"]
+
+
+@st.composite
+def narrow_case(draw):
+    dt = draw(st.sampled_from(NARROW))
+    lens = draw(st.lists(st.integers(1, 4), min_size=1, max_size=4))
+    isf = dt.startswith("float")
+    if isf:
+        elem = st.sampled_from([0.1, 0.2, 0.3, 0.5, 1.0, 1.1, 2.5, 3.3, 7.0, 100.1, 0.7, 1e-3, 16777217.0, -0.1, -2.5])
+    else:
+        info = np.iinfo(dt)
+        elem = st.sampled_from([0, 1, 2, 3, 5, 7, 100, 120, 127, 200, 250, 255, 30000, 32767, 65535, -1, -3, -100, -128])\
+            .filter(lambda v: info.min <= v <= info.max)
+    rows = [draw(st.lists(elem, min_size=L, max_size=L)) for L in lens]
+    okind = draw(st.sampled_from(["pyint", "pyfloat", "npscalar_same", "npscalar_wide", "ragged_same", "ragged_other"]))
+    sval = draw(st.sampled_from([0.1, 0.2, 0.5, 1.1, 2.5, 0.7, 3.3, 100.1])) if okind == "pyfloat" else \
+        draw(st.sampled_from([1, 2, 3, 7, 10, 100, 127, 128, 200, 255, 256, 300, 1000, 40000, 70000, -1, -2, -7, -200]))
+    odt = draw(st.sampled_from(NARROW))
+    orows = [draw(st.lists(st.sampled_from([1, 2, 3, 5, 7, 100, 120]), min_size=L, max_size=L)) for L in lens]
+    return {"dtype": dt, "rows": rows, "okind": okind, "s": sval, "odtype": odt, "orows": orows,
+            "name": draw(st.sampled_from(NOPS))}
+
+
+def run_narrow(case):
+    dt = case["dtype"]
+    rows = [np.array(r, dtype=dt) for r in case["rows"]]
+    a = ra.RaggedArray([r.copy() for r in rows])
+    require(a.dtype == np.dtype(dt), "constructor changed the dtype", got=str(a.dtype), want=dt)
+    k = case["okind"]
+    if k in ("pyint", "pyfloat"):
+        o = case["s"]
+        om = [o] * len(rows)
+    elif k == "npscalar_same":
+        try:
+            o = np.dtype(dt).type(case["s"])
+        except OverflowError:
+            raise Skip("scalar does not fit the dtype")
+        om = [o] * len(rows)
+    elif k == "npscalar_wide":
+        o = np.float64(case["s"]) if dt.startswith("float") else np.int64(case["s"])
+        om = [o] * len(rows)
+    else:
+        odt = dt if k == "ragged_same" else case["odtype"]
+        om = [np.array(r, dtype=odt) for r in case["orows"]]
+        o = ra.RaggedArray([r.copy() for r in om])
+    name = case["name"]
+
+    def per_row():
+        out = []
+        for r, x in zip(rows, om):
+            v = getattr(r, "__%s__" % name)(x)
+            if v is NotImplemented:
+                raise Skip("numpy does not implement this operand combination")
+            out.append(v)
+        return out
+    with np.errstate(all="ignore"), __import__("warnings").catch_warnings():
+        __import__("warnings").simplefilter("ignore")
+        try:
+            want, wexc = per_row(), None
+        except Skip:
+            raise
+        except Exception as x:
+            want, wexc = None, x
+        try:
+            res, rexc = getattr(a, "__%s__" % name)(o), None
+        except Exception as x:
+            res, rexc = None, x
+    if wexc is not None:
+        require(rexc is not None, "operator %s: every row raises %s for this operand, the ragged array returned a value" % (
+            name, type(wexc).__name__), dtype=dt, other=repr(o)[:80], got=None if res is None else res.flatten().tolist())
+        return Info(True, ["narrow_outcome=both_raise", "narrow_dtype=" + dt, "narrow_other=" + k])
+    if rexc is not None:
+        raise Violation("operator %s raised %s: %s where the rows give a value | dtype=%s other=%r" % (
+            name, type(rexc).__name__, str(rexc)[:120], dt, o if not isinstance(o, ra.RaggedArray) else "ragged")) from rexc
+    require(type(res) is ra.RaggedArray, "operator %s did not return a RaggedArray" % name)
+    require([int(x) for x in res.lengths] == [len(w) for w in want], "operator %s lost the row structure" % name)
+    wf = np.concatenate(want)
+    rf = res.flatten()
+    require(np.array_equal(rf, wf, equal_nan=True), "operator %s is not element-wise (values differ from the per-row result)" % name,
+            got=rf.tolist(), want=wf.tolist(), dtype=dt, other=repr(o)[:80] if not isinstance(o, ra.RaggedArray) else case["orows"],
+            left=np.concatenate(rows).tolist())
+    require(rf.dtype == wf.dtype, "operator %s: result type differs from the per-row result type" % name,
+            got=str(rf.dtype), want=str(wf.dtype), dtype=dt, other=repr(o)[:80] if not isinstance(o, ra.RaggedArray) else case["odtype"])
+    require(np.array_equal(a.flatten(), np.concatenate(rows)) and a.dtype == np.dtype(dt), "operator altered its left operand")
+    if isinstance(o, ra.RaggedArray):
+        require(np.array_equal(o.flatten(), np.concatenate(om)), "operator altered its right operand")
+    wide = np.dtype(dt).itemsize < 8
+    return Info(wide, ["narrow_outcome=value", "narrow_dtype=" + dt, "narrow_other=" + k, "narrow_op=" + name])
+
+
 CLAUSES = [
     Clause("history", None, run_history, quick=900, thorough=16000, stateful=make_machine, steps=30),
     Clause("copy_no_alias", alias_case(), run_alias, quick=400, thorough=8000),
     Clause("operators_special_values", special_case(), run_special, quick=500, thorough=10000),
+    Clause("operators_narrow_dtypes", narrow_case(), run_narrow, quick=1500, thorough=30000),
 ]
 MATCHERS = {}
